@@ -589,45 +589,80 @@ def oracle_sites(c):
 
 # ==========================================================================================
 # oracle 5: cached factors follow the setters
-def run_cache_impl(c):
-    """c['ops'] = list of ['desc', site] | ['gamma', v] | ['gbEnergy', v] | ['pgamma', v] | ['read', name];
-    returns for every op None (setter) or the value read / the exception name"""
+def make_holder(holder):
+    """holder of the parameter object: 'owned' = the one PrecipitateParameters creates (its validate() callback is registered),
+    'standalone' = NucleationBarrierParameters used on its own (public constructor, exported from kawin.precipitation),
+    'attached' = built by the user and assigned as prec.nucleation afterwards (no callback registered).
+    All three start from the state of a new PrecipitateParameters: dislocations, gamma None, gbEnergy 0.3"""
     N, _, PP, _ = impl()
-    # holder of the parameter object: 'owned' = the one PrecipitateParameters creates (its validate() callback is registered),
-    # 'standalone' = NucleationBarrierParameters used on its own (public constructor, exported from kawin.precipitation),
-    # 'attached' = built by the user and assigned as prec.nucleation afterwards (no callback registered).
-    # All three start from the state of a new PrecipitateParameters: dislocations, gamma None, gbEnergy 0.3
-    holder = c.get('holder', 'owned')
     if holder == 'standalone':
-        prec = None
-        nbp = N.NucleationBarrierParameters(site=N.DislocationDescription(), gamma=None, gbEnergy=0.3)
-    else:
-        prec = PP('beta')
-        if holder == 'attached':
-            prec.nucleation = N.NucleationBarrierParameters(site=N.DislocationDescription(), gamma=None, gbEnergy=0.3)
-        nbp = prec.nucleation
-    out = []
-    for op, arg in c['ops']:
-        try:
-            if op == 'desc':
-                nbp.setNucleationType(arg)
-                out.append(None)
-            elif op == 'gamma' or (op == 'pgamma' and prec is None):
-                if prec is not None:
-                    prec.gamma = arg       # keep the owner consistent through its public setter (its callback copies gamma back) ...
-                nbp.gamma = arg            # ... and exercise the setter of the parameter object itself
-                out.append(None)
-            elif op == 'pgamma':
-                prec.gamma = arg
-                out.append(None)
-            elif op == 'gbEnergy':
-                nbp.gbEnergy = arg
-                out.append(None)
-            else:
-                out.append(float(quiet(getattr, nbp, arg)))
-        except Exception as e:
-            out.append(type(e).__name__)
-    return out
+        return None, N.NucleationBarrierParameters(site=N.DislocationDescription(), gamma=None, gbEnergy=0.3)
+    prec = PP('beta')
+    if holder == 'attached':
+        prec.nucleation = N.NucleationBarrierParameters(site=N.DislocationDescription(), gamma=None, gbEnergy=0.3)
+    return prec, prec.nucleation
+
+
+def _call_public(prec, nbp, name, args):
+    """public computations that use the cached factors and must not change them"""
+    NR = impl()[1]
+    if name == 'nucleationBarrier' and prec is not None:
+        dg = np.array(args[0], dtype=float)
+        given = dg.copy()
+        R, G = quiet(NR.nucleationBarrier, dg, prec)
+        if not np.array_equal(dg, given):
+            return 'argument modified'
+        return [float(x) for x in np.atleast_1d(R)] + [float(x) for x in np.atleast_1d(G)]
+    if name == 'Gcrit':
+        return [float(np.squeeze(quiet(nbp.Gcrit, float(args[0][0]), float(args[1]))))]
+    return [float(np.squeeze(quiet(nbp.Rcrit, float(args[0][0]))))]
+
+
+def apply_op(prec, nbp, op, arg):
+    try:
+        if op == 'desc':
+            nbp.setNucleationType(arg)
+            return None
+        if op == 'gamma' or (op == 'pgamma' and prec is None):
+            if prec is not None:
+                prec.gamma = arg       # keep the owner consistent through its public setter (its callback copies gamma back) ...
+            nbp.gamma = arg            # ... and exercise the setter of the parameter object itself
+            return None
+        if op == 'pgamma':
+            prec.gamma = arg
+            return None
+        if op == 'gbEnergy':
+            nbp.gbEnergy = arg
+            return None
+        if op == 'call':
+            return _call_public(prec, nbp, arg[0], arg[1:])
+        return float(quiet(getattr, nbp, arg))
+    except Exception as e:
+        return type(e).__name__
+
+
+def run_cache_impl(c):
+    """c['ops'] = list of ['desc', site] | ['gamma', v] | ['gbEnergy', v] | ['pgamma', v] | ['read', name] |
+    ['call', [function, dG list, (R)]]; returns for every op None (setter), the value(s) returned or the exception name"""
+    prec, nbp = make_holder(c.get('holder', 'owned'))
+    return [apply_op(prec, nbp, op, arg) for op, arg in c['ops']]
+
+
+def run_cache_interleaved(c):
+    """two parameter objects alive at the same time, their histories interleaved operation by operation"""
+    A = make_holder(c.get('holder', 'owned'))
+    B = make_holder(c['other'].get('holder', 'owned'))
+    oa, ob = [], []
+    ia, ib = iter(c['ops']), iter(c['other']['ops'])
+    while True:
+        x, y = next(ia, None), next(ib, None)
+        if x is None and y is None:
+            break
+        if x is not None:
+            oa.append(apply_op(A[0], A[1], x[0], x[1]))
+        if y is not None:
+            ob.append(apply_op(B[0], B[1], y[0], y[1]))
+    return oa, ob
 
 
 def cache_params_trace(c):
@@ -645,22 +680,70 @@ def cache_params_trace(c):
     return tr_
 
 
+def fresh_call(holder, site, g, e, arg):
+    """the same public call on a freshly built object with the given parameters"""
+    N, _, PP, _ = impl()
+    try:
+        if holder == 'standalone':
+            prec, nbp = None, N.NucleationBarrierParameters(site=site, gamma=g, gbEnergy=e)
+        else:
+            prec = PP('beta')
+            if g is not None:
+                prec.gamma = g
+            prec.nucleation.gbEnergy = e
+            prec.nucleation.setNucleationType(site)
+            if g is None:
+                prec.nucleation.gamma = None
+            nbp = prec.nucleation
+        return _call_public(prec, nbp, arg[0], arg[1:])
+    except Exception as ex:
+        return type(ex).__name__
+
+
+def _same_result(a, b):
+    if isinstance(a, list) and isinstance(b, list):
+        return len(a) == len(b) and all((x == y) or (math.isnan(x) and math.isnan(y)) or abs(x - y) <= 1e-12 * abs(y) for x, y in zip(a, b))
+    if isinstance(a, float) and isinstance(b, float):
+        return a == b or (math.isnan(a) and math.isnan(b))
+    return a == b
+
+
 def oracle_cache(c):
     v = []
+    holder = c.get('holder', 'owned')
     got = run_cache_impl(c)
+
+    def after(i):
+        last = [o for o in c['ops'][:i] if o[0] != 'read'][-1:] or [['(initial)', None]]
+        what = 'a public computation (Rcrit / Gcrit / nucleationBarrier)' if last[0][0] == 'call' else ('setting ' + last[0][0].replace('pgamma', 'gamma'))
+        return 'after ' + what + ('' if holder == 'owned' or last[0][0] == 'call' else ', %s object' % holder)
     for i, ((op, arg), (site, g, e), val) in enumerate(zip(c['ops'], cache_params_trace(c), got)):
+        if op == 'call':
+            exp = fresh_call(holder, site, g, e, arg)
+            if not _same_result(exp, val):
+                prev = [o for o in c['ops'][:i] if o[0] == 'call']
+                v.append(('cache_coherent', after(i),
+                          '%s NucleationBarrierParameters: %s(%s) as operation %d (after %d earlier public calls, no setter needed in between) returns %r; a fresh object with the '
+                          'current parameters (site %s, gamma %r, gbEnergy %r) returns %r' % (holder, arg[0], ', '.join(repr(a) for a in arg[1:]), i, len(prev), val, site, g, e, exp)))
+            continue
         if op != 'read':
             if val is not None:
                 v.append(('no_internal_error', 'setter', 'setting %s = %r raised %s' % (op, arg, val)))
             continue
         exp = read_params(site, g, e)[arg]
-        same = (exp == val) or (isinstance(exp, float) and isinstance(val, float) and math.isnan(exp) and math.isnan(val))
-        if not same:
-            last = [o for o in c['ops'][:i] if o[0] != 'read'][-1:] or [['(initial)', None]]
-            holder = c.get('holder', 'owned')
-            v.append(('cache_coherent', 'after setting ' + last[0][0].replace('pgamma', 'gamma') + ('' if holder == 'owned' else ', %s object' % holder),
+        if not _same_result(exp, val):
+            v.append(('cache_coherent', after(i),
                       '%s NucleationBarrierParameters: read of %s after %d operations returns %r; a fresh object with the current parameters (site %s, gamma %r, gbEnergy %r) returns %r'
                       % (holder, arg, i, val, site, g, e, exp)))
+    if c.get('other'):
+        alone_b = run_cache_impl(c['other'])
+        ia, ib = run_cache_interleaved(c)
+        for nm, x, y, ops in (('first', got, ia, c['ops']), ('second', alone_b, ib, c['other']['ops'])):
+            bad = [k for k, (p_, q_) in enumerate(zip(x, y)) if not _same_result(p_, q_)]
+            if bad:
+                k = bad[0]
+                v.append(('instances_independent', 'two parameter objects',
+                          'two parameter objects used alternately: operation %d of the %s object (%r) returns %r, the same history on that object alone returns %r' % (k, nm, ops[k], y[k], x[k])))
     return _dedupe(v)
 
 
@@ -856,7 +939,7 @@ def gen_sites(rng, quick, shared=None):
             'fill': [float(rng.choice([rng.uniform(0.05, 0.95), rng.uniform(0.05, 0.95), rng.uniform(1.0, 3.0)])) for _ in range(nph)]}
 
 
-def gen_cache(rng, quick):
+def gen_cache(rng, quick, twin=True):
     gvals = [0.03, 0.1, 0.15, 0.2, 0.4, 0.125]
     evals = [0.05, 0.1, 0.3, 0.25, 0.6]
     nops = int(rng.integers(4, 18))
@@ -873,13 +956,22 @@ def gen_cache(rng, quick):
             ops.append(['gbEnergy', float(rng.choice(evals)) if rng.random() < 0.95 else None])
         else:
             ops.append(['desc', str(rng.choice(SITES))])
+        if rng.random() < 0.25:
+            # a public computation that uses the cached factors (must leave them alone)
+            dgs = [float(x) for x in rng.choice([1e8, 5e8, 2e9, 3e7], int(rng.integers(1, 3)), replace=False)]
+            fn = str(rng.choice(['Rcrit', 'Gcrit', 'nucleationBarrier']))
+            ops.append(['call', [fn, dgs] + ([float(rng.choice([3e-10, 1e-9, 4e-9]))] if fn == 'Gcrit' else [])])
         if rng.random() < 0.2:
             # read a factor, change ONE parameter, read the same factor again
             f = str(rng.choice(FACTORS))
             ch = [['desc', str(rng.choice(SITES))], ['gamma', float(rng.choice(gvals))], ['gbEnergy', float(rng.choice(evals))]][int(rng.integers(0, 3))]
             ops += [['read', f], ch, ['read', f]]
     ops.append(['read', str(rng.choice(FACTORS))])
-    return {'kind': 'cache', 'ops': ops, 'holder': str(rng.choice(['owned', 'standalone', 'attached']))}
+    c = {'kind': 'cache', 'ops': ops, 'holder': str(rng.choice(['owned', 'standalone', 'attached']))}
+    if twin and rng.random() < 0.3:
+        c['other'] = gen_cache(rng, quick, twin=False)      # a second object alive at the same time, used alternately
+        c['other'].pop('kind')
+    return c
 
 
 def gen_search(rng, quick, budget=1.0):
@@ -1312,16 +1404,28 @@ def corr_cache(ctx, quick):
                 tab.append(v)
             return tab.index(v)
         ops = []
+        idx = []            # position of every case operation in the model's operation list (None: no model operation)
         code(ev, 0.3)
+        cur_site = 'dislocations'
         for op, arg in c['ops']:
+            idx.append(len(ops))
             if op == 'desc':
                 ops.append('SetDesc %s' % COQSITE[arg])
+                cur_site = arg
             elif op in ('gamma', 'pgamma'):
                 ops.append('SetGamma %d' % code(gv, arg))
             elif op == 'gbEnergy':
                 ops.append('SetGbE %d' % code(ev, arg))
+            elif op == 'call':
+                # a public computation is, for the cache, the reads it performs (area factor, removed boundary, volume factor);
+                # nucleationBarrier touches the factors only for grain-boundary sites
+                if arg[0] != 'nucleationBarrier' or c.get('holder') == 'standalone' or cur_site in GBSITES:
+                    ops += ['Read SArea', 'Read SGbRem', 'Read SVol']
+                else:
+                    idx[-1] = None
             else:
                 ops.append('Read %s' % SLOT[arg])
+        c['_idx'] = idx
         bad = []
         for s in GBSITES:
             for ei, e in enumerate(ev):
@@ -1333,13 +1437,17 @@ def corr_cache(ctx, quick):
     res = ctx.coq_eval('cache', CACHE_HEADER, terms, shard=max(2, -(-len(terms) // 8)))
     dis = []
     for c, (gv, ev), model in zip(cases, tabs, res):
+        idx_ = c.pop('_idx')
         got = run_cache_impl(c)
+        c['_idx'] = idx_
         ctx.count({'corr': 'cache', 'ops': c['ops']}, sum(1 for o in c['ops'] if o[0] != 'read') >= 2)
         ctx.hist('cache_ops', '<=8' if len(c['ops']) <= 8 else '9-14' if len(c['ops']) <= 14 else '>14')
         ctx.hist('cache_holder', c.get('holder', 'owned'))
-        for i, ((op, arg), mo, val) in enumerate(zip(c['ops'], model, got)):
+        idx = c.pop('_idx')
+        for i, ((op, arg), val) in enumerate(zip(c['ops'], got)):
             if op != 'read':
                 continue
+            mo = model[idx[i]]
             if mo == 'Raised':
                 exp = 'ValueError'
             else:
